@@ -278,22 +278,10 @@ func renderFile(format string, items []absItem, l layout) []byte {
 		}
 	}
 	out := b.Bytes()
-	if l.NoFinalNL {
-		out = bytes.TrimRight(out, "\r\n")
-		// (a uripost / raw body that itself ends in newlines keeps them: only re-add what belongs to the body)
-		if format == "uripost" || format == "raw" {
-			var last *absReq
-			for i := len(items) - 1; i >= 0; i-- {
-				if items[i].Req != nil {
-					last = items[i].Req
-					break
-				}
-			}
-			if last != nil {
-				trimmed := bytes.TrimRight(last.Body, "\r\n")
-				out = append(out, last.Body[len(trimmed):]...)
-			}
-		}
+	if l.NoFinalNL && bytes.HasSuffix(out, []byte(nl)) {
+		// drop exactly the line terminator written after the last entry (bytes that belong to a body or
+		// to a raw request stay)
+		out = out[:len(out)-len(nl)]
 	}
 	return out
 }
